@@ -154,6 +154,11 @@ def extra_frames(inst, rng):
         out.append(("unknown_type", C.frame(p, 0xB0, 0x80, 9, 0x41, [1, 2, 3])))
         out.append(("unknown_ext", C.frame(p, 0xB0, 0x90, 9, 0x1F, [0xFF, 0x55, 1, 2])))
         out.append(("unknown_sub", C.frame(p, 0xB0, 0x80, 9, 0xC0, [0x77, 0, 0, 2, 0, 0, 0, 0, 9, 9])))
+        # unknown sub-types with every shape of sub-header (normal data, repeat length, repeat count)
+        for nl, rl, cnt in ((0, 0, 0), (0, 3, 2), (2, 3, 2), (1, 5, 1), (0, 1, 0), (3, 2, 4)):
+            body = [rng.randrange(256) for _ in range(nl + rl * cnt)]
+            out.append((f"unknown_sub_{nl}_{rl}_{cnt}",
+                        C.frame(p, 0xB0, 0x80, rng.randrange(256), 0xC0, [rng.choice([0x77, 0x24, 0x30, 0xFE]), 0, nl >> 8, nl & 255, rl >> 8, rl & 255, cnt >> 8, cnt & 255] + body)))
         out.append(("foreign", C.frame(p, 0xB7, 0x80, 9, 0xC0, [0x22, 0, 0, 0, 0, 4, 0, 1, 0x21, 0xFF, 0, 0xFF])))
     # another client's requests, relayed by the console: addressed elsewhere (to # 0xB0) whatever
     # the sender; only request forms that cannot be read as an (empty) answer
@@ -279,6 +284,38 @@ def c08_script(seed, proto):
         b.op(op="quiesce")
         b.shutdown()
         return b.script, {"proto": proto, "seed": seed, "pattern": "blocked_writes", "after_beat": k, "session": session}
+    if rng.random() < 0.2:
+        # the console becomes unreachable (attempts refused) across one or two watchdog deadlines, comes
+        # back, answers some beats, then falls silent on a live link: the watchdog must still be there
+        k = rng.randrange(0, 3)
+        for j in range(k + 1):
+            b.op(op="advance", to=base + 300000 * j + 125)
+            b.op(op="feed", b=version_frame(proto, pid=rng.randrange(256)), tag="hb_response")
+            b.op(op="quiesce")
+        t = base + 300000 * k + rng.choice([1000, 150000])
+        b.op(op="advance", to=t)
+        b.op(op="auto", how="refuse")
+        b.op(op="peer_reset")
+        b.op(op="quiesce")
+        t = base + 300000 * k + 125 + 330000 * rng.randrange(1, 3) + rng.choice([20000, 100000])
+        b.op(op="advance", to=t)
+        b.op(op="auto", how="ok")
+        b.op(op="advance", by=2125)
+        b.op(op="quiesce")
+        acf, zf = status_frames(inst)
+        b.op(op="feed", b=acf, tag="refresh_ac")
+        b.op(op="feed", b=zf, tag="refresh_zone")
+        b.op(op="quiesce")
+        # beats keep their own rhythm (base + n * 300 s): answer the next two, then silence
+        nb = (t + 2125 - base) // 300000 + 1
+        for j in range(nb, nb + 2):
+            b.op(op="advance", to=base + 300000 * j + 125)
+            b.op(op="feed", b=version_frame(proto, pid=rng.randrange(256)), tag="hb_response")
+            b.op(op="quiesce")
+        b.op(op="advance", to=base + 300000 * (nb + 1) + 125 + 330000 + rng.choice([125, 400000]))
+        b.op(op="quiesce")
+        b.shutdown()
+        return b.script, {"proto": proto, "seed": seed, "pattern": "outage_across_deadline", "session": session}
     lat = [125, 10000, 29875, 30250, 60000, None]
     n_beats = rng.randrange(3, 6)
     pattern = [rng.choice(lat) for _ in range(n_beats)]
@@ -685,6 +722,31 @@ def c10_script(seed, proto, combos=None, subscribers=False, raising=False):
             break
         if not subscribers and combos is None and rng.random() < 0.06:
             stalled_report(b, inst, rng)
+            continue
+        if not subscribers and combos is None and rng.random() < 0.04:
+            # a second life of the same object, the console reporting exactly what it reported last:
+            # the model is rebuilt from scratch all the same
+            b.shutdown()
+            b.init(inst)
+            continue
+        if subscribers and combos is None and not raising and rng.random() < 0.05:
+            # the link stalls, a changed AC report with an error code arrives (the client has to write a
+            # request before it can tell anybody), a subscriber leaves and another joins meanwhile
+            a = rng.choice(inst["acs"])
+            b.op(op="sub", who=f"L{a['n']}", kind=rng.choice(["ac", "ac_state"]), target=f"ac:{a['n']}")
+            b.op(op="quiesce")
+            b.op(op="pause")
+            a["status"] = dict(ac_record(proto, a["n"], rng), err=rng.choice([1, 5, 0xFFFE]))
+            pl = C.at4_ac_status([a["status"]]) if proto == "at4" else C.at5_ac_status([a["status"]])
+            b.op(op="feed", b=C.from_console(proto, 0x2D if proto == "at4" else 0xC0, pl, pid=rng.randrange(256)), tag="ac_status_while_stalled")
+            b.op(op="quiesce")
+            b.op(op="unsub", who=f"L{a['n']}", kind="ac", target=f"ac:{a['n']}")
+            b.op(op="unsub", who=f"L{a['n']}", kind="ac_state", target=f"ac:{a['n']}")
+            b.op(op="sub", who=f"J{a['n']}", kind="ac", target=f"ac:{a['n']}")
+            b.op(op="resume")
+            b.op(op="quiesce")
+            b.op(op="snapshot", tag="after_stall")
+            b.op(op="unsub", who=f"J{a['n']}", kind="ac", target=f"ac:{a['n']}")
             continue
         if subscribers and combos is None and rng.random() < 0.04:
             # a second life of the same object: the AC and zone objects (and their subscribers) are rebuilt,
